@@ -135,3 +135,33 @@ theorem habsent_parse (ha : List HeaderL) (wf : ∀ h ∈ ha, WFHdrL h ∧ h.nam
       | cons c n => simp
 
 end Huginn.SigText
+
+namespace Huginn.SigText
+open Huginn.Sig Huginn.SigText.Spec
+set_option linter.unusedSimpArgs false
+
+/-- print → parse for HTTP signatures outside the class `httpEmptyHorder` -/
+theorem parseHttpSigFullL_print (s : HttpSigL) (hv : versionInGrammar s.version = true)
+    (hh : ∀ h ∈ s.horder, WFHdrL h) (ha : ∀ h ∈ s.habsent, WFHdrL h ∧ h.name ≠ [])
+    (hkf : ¬ Huginn.KF.C06.httpEmptyHorder s) :
+    parseHttpSigFullL (printHttpSigL s) = some s := by
+  obtain ⟨ver, horder, habsent, expsw⟩ := s
+  cases horder with
+  | nil => exact absurd rfl hkf
+  | cons x xs =>
+    have e : printHttpSigL ⟨ver, x :: xs, habsent, expsw⟩ =
+        printHttpVersion ver ++ (':' :: (joinComma printHeaderL (x :: xs) ++
+          (':' :: (joinComma printHeaderL habsent ++ (':' :: expsw))))) := by
+      simp [printHttpSigL]
+    have h1 : ∀ r, sepList1 comma parseHeaderL (joinComma printHeaderL (x :: xs) ++ ':' :: r) =
+        some (x :: xs, ':' :: r) :=
+      fun r => sepList1_joinComma parseHeaderL printHeaderL x xs (Or.inr ⟨r, rfl⟩)
+        (fun h hm r' hr' => parseHeaderL_print h (hh h hm) hr')
+    obtain ⟨L, h2, h3⟩ := habsent_parse habsent ha expsw
+    unfold parseHttpSigFullL full parseHttpSigL
+    rw [e]
+    simp only [parseHttpVersion_print ver hv, colon_cons, Option.bind_eq_bind, Option.bind_some, h1, h2,
+      rest, Option.pure_def, Option.getD_some, h3]
+
+
+end Huginn.SigText
